@@ -3,8 +3,11 @@
    Quantification: any stream s with oct_wf s (position <= len(buffer), the documented
    invariant; buffer = any list, so any byte string), any read operation op of
    OctetsStream / OctetsReader (oct_op, including OctetsStream.Read(make([]byte,n)) with
-   n >= 0 = oct_op_ok), and any sequence of such calls. *)
-From Got Require Import Base Octets OctetsSpec OctetsProofs.
+   n >= 0 = oct_op_ok), and any sequence of such calls.
+   The last section discharges oct_wf: the state reached by ANY sequence of stream operations
+   (Write, Read, Seek, Tidy, Reset -- C13's model StreamOps.v) corresponds, through the
+   bridge of proofs/OctetsBridge.v, to a well-formed state of this model. *)
+From Got Require Import Base GoSlice Octets OctetsSpec OctetsProofs StreamOps StreamOpsProofs StreamReads OctetsBridge.
 Local Open Scope Z_scope.
 
 (* never panics (both for the code as it is and for the pre-fix ReadBytes) *)
@@ -87,6 +90,197 @@ Theorem c12_read_bytes_orig_alloc_refuted :
     oct_read_bytes OctFixed (oct_write oct_empty input) = (Err OctErrNotEnoughData, s', 0).
 Proof. exact read_bytes_orig_alloc_refuted_lemma. Qed.
 Print Assumptions c12_read_bytes_orig_alloc_refuted.
+
+(* ------------------------------------------------------------------ the cursor hypothesis, discharged *)
+(* StreamOps.v (C13) and Octets.v (C11/C12) are two transcriptions of iox/octets_stream.go.
+   brg_rel s o : the StreamOps state s and the Octets state o have the same bytes and the
+   same position.  On EVERY pair of corresponding states (also position > len) the
+   operations both models have are the same function: *)
+
+(* Len(), Position(), Bytes() = buffer[position:], and the invariants of the two models *)
+Theorem c12_models_agree_observers : forall s o,
+  brg_rel s o ->
+  oct_len o = stm_len s /\ oct_position o = stm_position s /\
+  stm_bytes s = brg_opt_res (oct_slice_from (oct_buf o) (oct_pos o)) /\
+  (stm_inv s <-> oct_wf o) /\
+  (oct_wf o -> stm_bytes s = Ok (oct_rest o) /\ stm_unread s = oct_rest o).
+Proof.
+  exact (fun s o H => conj (brg_len s o H) (conj (brg_position s o H) (conj (brg_bytes s o H)
+           (conj (brg_inv_wf s o H) (brg_bytes_rest s o H))))).
+Qed.
+Print Assumptions c12_models_agree_observers.
+
+(* the correspondence is one-to-one (StreamOps states with a non-negative position) *)
+Theorem c12_models_states_bijective : forall s o,
+  (brg_rel s o <-> (0 <= st_pos s /\ o = brg_oct s)) /\ (brg_rel s o <-> s = brg_stm o).
+Proof. exact (fun s o => conj (brg_rel_iff s o) (brg_rel_iff_stm s o)). Qed.
+Print Assumptions c12_models_states_bijective.
+
+(* Write(p); the raw append of WriteBool/Byte/Int16/Int32/Int64; every typed writer is
+   Write of the value's wire format *)
+Theorem c12_models_agree_write : forall s o,
+  brg_rel s o ->
+  (forall p, brg_rel (stm_write s p) (oct_write o p)) /\
+  (forall l, brg_rel (stm_write s l) (oct_append o l)) /\
+  (forall a x, oct_val_ok x = true ->
+     exists o', oct_write_val a o x = Some o' /\ brg_rel (stm_write s (oct_wire x)) o').
+Proof.
+  exact (fun s o H => conj (fun p => brg_write s o p H) (conj (fun l => brg_append s o l H)
+           (fun a x Hx => brg_write_val a s o x H Hx))).
+Qed.
+Print Assumptions c12_models_agree_write.
+
+(* Read(make([]byte, n)): same bytes, same error, same new position, same panics *)
+Theorem c12_models_agree_read : forall s o n,
+  brg_rel s o -> brg_read_agree s o (stm_read s n) (oct_stream_read o (Z.of_nat n)).
+Proof. exact brg_read. Qed.
+Print Assumptions c12_models_agree_read.
+
+(* Tidy(): same result state, same panics; copy() and the checked slice accessors agree *)
+Theorem c12_models_agree_tidy : forall s o,
+  brg_rel s o -> brg_tidy_agree (stm_tidy s) (oct_tidy o).
+Proof. exact brg_tidy. Qed.
+Print Assumptions c12_models_agree_tidy.
+
+Theorem c12_models_agree_slices : forall (l : list Z),
+  (forall p, gs_slice_from l (Z.of_nat p) = brg_opt_res (oct_slice_from l p)) /\
+  (forall a b, gs_slice l a b = brg_opt_res (oct_slice l a b)) /\
+  (forall src, gs_copy l src = oct_copy l src).
+Proof. exact (fun l => conj (brg_slice_from l) (conj (brg_slice l) (brg_copy l))). Qed.
+Print Assumptions c12_models_agree_slices.
+
+(* THE composed property.  For every sequence ops of stream operations (Write of any bytes,
+   Read of any size, Seek with ANY offset and whence -- also invalid ones, also outside the
+   int64 range --, Tidy, Reset; the code as it is now, with the Seek upper-bound check)
+   applied to the empty stream, and every sequence rops of typed read calls made afterwards
+   on the same stream: no stream operation panics; the state reached has
+   0 <= Position() <= Len(); no read call panics, the buffer is unchanged, every cursor is
+   monotone within [Position(), Len()], the bytes requested from make() are bounded by the
+   unread bytes at the time of the call (oct_reads_safe); failed fixed-width reads consume
+   nothing (brg_fixed_fail_nothing); and this is the function the correspondence check
+   compares with the real code (brg_case; its first part is C13's trace).
+   No hypothesis on the cursor: it is c13_stm_cursor_in_bounds (StreamOpsProofs.stm_run_inv)
+   carried across the bridge. *)
+Theorem c12_reads_safe_after_any_ops : forall v ops rops,
+  forallb oct_op_ok rops = true ->
+  exists s rs,
+    stm_run StmFixed stm_init ops = Ok (s, rs) /\ length rs = length ops /\
+    brg_rel s (brg_oct s) /\
+    0 <= oct_position (brg_oct s) <= oct_len (brg_oct s) /\
+    oct_reads_safe v (brg_oct s) (oct_run_reads v rops (brg_oct s)) /\
+    brg_fixed_fail_nothing rops (brg_oct s) (oct_run_reads v rops (brg_oct s)) /\
+    brg_case StmFixed v ops rops =
+      (stm_trace StmFixed stm_init ops, Some (oct_run_reads v rops (brg_oct s))).
+Proof. exact reads_safe_after_any_ops_lemma. Qed.
+Print Assumptions c12_reads_safe_after_any_ops.
+
+(* ... and in any alternation: segments of stream operations and segments of typed read
+   calls in turn, any number of them, on one stream starting empty (read, Tidy, write more,
+   Seek back, read again, Reset, ...).  brg_phases_safe: every stream-op segment runs without
+   panic, its trace is C13's clean trace, and leaves 0 <= Position() <= Len(); every read
+   segment is safe in the sense above (oct_reads_safe, brg_fixed_fail_nothing) on the state
+   the previous segment left, leaves the buffer unchanged and the cursor monotone within
+   [Position(), Len()], and Bytes() afterwards is exactly the unread rest.  This is the
+   function the correspondence check compares with the real code (c12s cases). *)
+Theorem c12_reads_safe_in_any_alternation : forall v segs,
+  forallb brg_seg_ok segs = true ->
+  brg_phases_safe v stm_init segs (brg_phases StmFixed v stm_init segs).
+Proof. exact alternation_safe_lemma. Qed.
+Print Assumptions c12_reads_safe_in_any_alternation.
+
+(* from any state inside its data, not only the empty stream *)
+Theorem c12_reads_safe_in_any_alternation_from : forall v segs s,
+  0 <= st_pos s <= stm_len s -> forallb brg_seg_ok segs = true ->
+  brg_phases_safe v s segs (brg_phases StmFixed v s segs).
+Proof. exact phases_safe_lemma. Qed.
+Print Assumptions c12_reads_safe_in_any_alternation_from.
+
+(* the predicate, unfolded once (so that the statement above can be read here) *)
+Theorem c12_alternation_safe_unfold : forall v s,
+  (forall ops tl t obs,
+     brg_phases_safe v s (BrgOps ops :: tl) (BrgOpsObs t :: obs) <->
+     exists s1 rs,
+       stm_run StmFixed s ops = Ok (s1, rs) /\ length rs = length ops /\
+       t = stm_trace StmFixed s ops /\ forallb stm_line_clean t = true /\ length t = length ops /\
+       0 <= st_pos s1 <= stm_len s1 /\ brg_phases_safe v s1 tl obs) /\
+  (forall rops tl rs b obs,
+     brg_phases_safe v s (BrgReads rops :: tl) (BrgReadsObs rs b :: obs) <->
+     brg_rel s (brg_oct s) /\ rs = oct_run_reads v rops (brg_oct s) /\
+     oct_reads_safe v (brg_oct s) rs /\ brg_fixed_fail_nothing rops (brg_oct s) rs /\
+     oct_buf (brg_after_reads (brg_oct s) rs) = oct_buf (brg_oct s) /\
+     oct_position (brg_oct s) <= oct_position (brg_after_reads (brg_oct s) rs) <= oct_len (brg_oct s) /\
+     b = Ok (oct_rest (brg_after_reads (brg_oct s) rs)) /\
+     brg_phases_safe v (brg_stm (brg_after_reads (brg_oct s) rs)) tl obs) /\
+  (brg_phases_safe v s [] [] <-> True).
+Proof. exact (fun v s => conj (fun ops tl t obs => iff_refl _) (conj (fun rops tl rs b obs => iff_refl _) (iff_refl _))). Qed.
+Print Assumptions c12_alternation_safe_unfold.
+
+(* the two-segment alternation is brg_case *)
+Theorem c12_alternation_two_is_case : forall sv v ops rops,
+  brg_phases sv v stm_init [BrgOps ops; BrgReads rops] =
+  BrgOpsObs (fst (brg_case sv v ops rops)) ::
+  match snd (brg_trace sv stm_init ops), snd (brg_case sv v ops rops) with
+  | Some s, Some rs => [BrgReadsObs rs (stm_bytes (brg_stm (brg_after_reads (brg_oct s) rs)))]
+  | _, _ => []
+  end.
+Proof. exact phases_two. Qed.
+Print Assumptions c12_alternation_two_is_case.
+
+(* neither Seek variant ever stores a negative position: every reachable StreamOps state
+   has an Octets counterpart *)
+Theorem c12_stream_position_never_negative : forall sv ops s rs,
+  stm_run sv stm_init ops = Ok (s, rs) -> 0 <= st_pos s /\ brg_rel s (brg_oct s).
+Proof.
+  exact (fun sv ops s rs H =>
+    let Hp := brg_run_pos_nonneg sv ops stm_init s rs (Z.le_refl 0) H in conj Hp (brg_rel_oct s Hp)).
+Qed.
+Print Assumptions c12_stream_position_never_negative.
+
+(* with the pre-fix Seek (no upper bound) the property is false: after Write(4 bytes);
+   Seek(10, SeekStart) -- which the current code rejects -- Position() = 10 > Len() = 4,
+   OctetsStream.Read(make([]byte, 1)) panics, ReadByte / ReadInt32 return ErrNotEnoughData
+   with the cursor outside the data *)
+Theorem c12_reads_after_orig_seek_refuted :
+  exists ops s rs,
+    stm_run StmOrig stm_init ops = Ok (s, rs) /\ brg_rel s (brg_oct s) /\
+    oct_position (brg_oct s) = 10 /\ oct_len (brg_oct s) = 4 /\ ~ oct_wf (brg_oct s) /\
+    fst (fst (oct_read_op OctFixed (OpRead 1) (brg_oct s))) = Panic /\
+    oct_read_op OctFixed (OpByte OctViaStream) (brg_oct s) = (Err OctErrNotEnoughData, brg_oct s, 0) /\
+    oct_read_op OctFixed (OpInt32 OctViaReader) (brg_oct s) = (Err OctErrNotEnoughData, brg_oct s, 0) /\
+    ~ oct_reads_safe OctFixed (brg_oct s) (oct_run_reads OctFixed [OpRead 1] (brg_oct s)) /\
+    ~ oct_reads_safe OctFixed (brg_oct s) (oct_run_reads OctFixed [OpByte OctViaStream] (brg_oct s)) /\
+    stm_run StmFixed stm_init ops = Ok (mk_stm [1; 2; 3; 4] 0, [SRWrote; SRSeek None]).
+Proof. exact reads_after_orig_seek_refuted_lemma. Qed.
+Print Assumptions c12_reads_after_orig_seek_refuted.
+
+(* non-vacuity of the composed property: write, partial read, a rejected and two accepted
+   Seeks, Tidy, more data; then a length-prefixed read, an int16, and two reads that fail *)
+Example c12s_nonvacuous :
+  brg_case StmFixed OctFixed
+    [SWrite [9; 2; 65; 66; 7]; SRead 1%nat; SSeek 9 0; SSeek (-1) 2; SSeek 1 0; STidy; SWrite [1]]
+    [OpBytes; OpInt16 OctViaReader; OpInt32 OctViaStream; OpByte OctViaStream] =
+  (stm_trace StmFixed stm_init
+     [SWrite [9; 2; 65; 66; 7]; SRead 1%nat; SSeek 9 0; SSeek (-1) 2; SSeek 1 0; STidy; SWrite [1]],
+   Some [(Ok (OVBytes [65; 66]), oct_mk [2; 65; 66; 7; 1] 3, 2);
+         (Ok (OVInt16 263), oct_mk [2; 65; 66; 7; 1] 5, 0);
+         (Err OctErrNotEnoughData, oct_mk [2; 65; 66; 7; 1] 5, 0);
+         (Err OctErrNotEnoughData, oct_mk [2; 65; 66; 7; 1] 5, 0)]).
+Proof. exact c12s_example. Qed.
+
+(* non-vacuity of the alternation: length-prefixed read, Tidy + more data + seeks, reads,
+   Reset + new data, reads *)
+Example c12s_alternation_nonvacuous :
+  brg_phases StmFixed OctFixed stm_init
+    [BrgOps [SWrite [2; 65; 66; 7; 1]; SSeek 9 0]; BrgReads [OpBytes];
+     BrgOps [STidy; SWrite [3]; SSeek (-1) 1; SSeek 1 1]; BrgReads [OpInt16 OctViaReader; OpInt32 OctViaStream];
+     BrgOps [SReset; SWrite [1; 88]]; BrgReads [OpString; OpByte OctViaStream]] =
+  [BrgOpsObs (stm_trace StmFixed stm_init [SWrite [2; 65; 66; 7; 1]; SSeek 9 0]);
+   BrgReadsObs [(Ok (OVBytes [65; 66]), oct_mk [2; 65; 66; 7; 1] 3, 2)] (Ok [7; 1]);
+   BrgOpsObs (stm_trace StmFixed (mk_stm [2; 65; 66; 7; 1] 3) [STidy; SWrite [3]; SSeek (-1) 1; SSeek 1 1]);
+   BrgReadsObs [(Ok (OVInt16 769), oct_mk [7; 1; 3] 3, 0); (Err OctErrNotEnoughData, oct_mk [7; 1; 3] 3, 0)] (Ok []);
+   BrgOpsObs (stm_trace StmFixed (mk_stm [7; 1; 3] 3) [SReset; SWrite [1; 88]]);
+   BrgReadsObs [(Ok (OVString [88]), oct_mk [1; 88] 2, 1); (Err OctErrNotEnoughData, oct_mk [1; 88] 2, 0)] (Ok [])].
+Proof. exact c12s_alternation_example. Qed.
 
 (* non-vacuity: an over-long 7-bit run, a length prefix larger than the rest, a truncated
    int16, then the last byte *)
